@@ -280,7 +280,7 @@ func (e *Env) Write(n int) error {
 	if err == nil {
 		e.CurOff += got
 	}
-	e.Emit(core.Event{"ev": "Write", "n": n, "got": got, "err": ErrKind(err), "full": IsFull(err) || e.Disk.Injected() > inj})
+	e.Emit(core.Event{"ev": "Write", "n": n, "got": got, "err": ErrKind(err), "full": IsFull(err) || e.Disk.Injected() > inj, "inj": e.Disk.Injected() > inj})
 	return err
 }
 
@@ -290,7 +290,7 @@ func (e *Env) Next() error {
 	e.Emit(core.Event{"ev": "NextCall", "size": e.CurOff})
 	inj := e.Disk.Injected()
 	err := e.W.Next()
-	e.Emit(core.Event{"ev": "Next", "err": ErrKind(err), "full": IsFull(err) || e.Disk.Injected() > inj})
+	e.Emit(core.Event{"ev": "Next", "err": ErrKind(err), "full": IsFull(err) || e.Disk.Injected() > inj, "inj": e.Disk.Injected() > inj})
 	e.NextID++
 	e.CurOff = 0
 	return err
@@ -300,7 +300,7 @@ func (e *Env) Next() error {
 func (e *Env) Flush() error {
 	inj := e.Disk.Injected()
 	err := e.W.Flush()
-	e.Emit(core.Event{"ev": "Flush", "err": ErrKind(err), "full": IsFull(err) || e.Disk.Injected() > inj})
+	e.Emit(core.Event{"ev": "Flush", "err": ErrKind(err), "full": IsFull(err) || e.Disk.Injected() > inj, "inj": e.Disk.Injected() > inj})
 	return err
 }
 
